@@ -447,3 +447,110 @@ Proof.
     + exact (ra_inj _ _ _ _ H k k' b Hk Hk' E E').
   - rewrite B4. lia.
 Qed.
+
+(* ------------------------------------------------------------------ what a run of reg.c's functions may do to the memory *)
+(* from (m, pb) to (m', pb'), k0 = the block of reg_put's local i_ln:
+   fr_prov   a register's pointer is the old one or points to a block allocated since;
+   fr_own    a block a register pointed to is still that register's, unchanged -- or it was freed and the register points elsewhere;
+   fr_other  every other old block (not the two tables, not k0) is unchanged;
+   fr_new    a block allocated since is a register's block or was freed again (nothing leaks) *)
+Record fr (k0 : nat) (m : mem) (pb : block) (m' : mem) (pb' : block) : Prop := mk_fr {
+  fr_len : (length m <= length m')%nat;
+  fr_prov : forall k b o, (k < 256)%nat -> cellp pb' k = VPtr b o -> cellp pb k = VPtr b o \/ (length m <= b)%nat;
+  fr_own : forall k b o, (k < 256)%nat -> cellp pb k = VPtr b o ->
+           (cellp pb' k = VPtr b o /\ nth_error m' b = nth_error m b) \/ (cellp pb' k <> VPtr b o /\ nth_error m' b = Some []);
+  fr_other : forall b, (b < length m)%nat -> b <> G_reg__bufs -> b <> G_lnmode -> b <> k0 ->
+             (forall k o, (k < 256)%nat -> cellp pb k <> VPtr b o) -> nth_error m' b = nth_error m b;
+  fr_new : forall b, (length m <= b < length m')%nat -> b <> k0 ->
+           nth_error m' b = Some [] \/ exists k, (k < 256)%nat /\ cellp pb' k = VPtr b 0
+}.
+
+Lemma fr_refl k0 m pb : fr k0 m pb m pb.
+Proof.
+  constructor; intros; try lia; try reflexivity.
+  - left. assumption.
+  - left. split; [assumption|reflexivity].
+Qed.
+
+Lemma live_not_freed m pb lb R k b o : regs_at m pb lb R -> (k < 256)%nat -> cellp pb k = VPtr b o -> nth_error m b <> Some [].
+Proof.
+  intros H Hk E. destruct (cell_live m pb lb R k b o H Hk E) as (_ & _ & _ & s & l & _ & Hs & _).
+  unfold str_at in Hs. rewrite Hs. unfold cstr_block. destruct (map VInt (zb s)); discriminate.
+Qed.
+
+Lemma fr_trans k0 m pb lb R m1 pb1 lb1 R1 m2 pb2 :
+  regs_at m pb lb R -> regs_at m1 pb1 lb1 R1 -> (length m <= k0)%nat ->
+  fr k0 m pb m1 pb1 -> fr k0 m1 pb1 m2 pb2 -> fr k0 m pb m2 pb2.
+Proof.
+  intros H H1 Hk0 F G. destruct globals_small as (G0 & G1 & G2 & G3 & G4 & G5). pose proof (ra_glob _ _ _ _ H) as Hg.
+  pose proof (fr_len _ _ _ _ _ F) as L1. pose proof (fr_len _ _ _ _ _ G) as L2.
+  constructor.
+  - lia.
+  - intros k b o Hk E. destruct (fr_prov _ _ _ _ _ G k b o Hk E) as [E1|Hb]; [|right; lia].
+    destruct (fr_prov _ _ _ _ _ F k b o Hk E1) as [E0|Hb]; [left; exact E0|right; exact Hb].
+  - intros k b o Hk E. destruct (cell_live m pb lb R k b o H Hk E) as (-> & Hh & Hb & _). unfold heap_blk in Hh.
+    destruct (fr_own _ _ _ _ _ F k b 0 Hk E) as [[E1 M1]|[E1 M1]].
+    + destruct (fr_own _ _ _ _ _ G k b 0 Hk E1) as [[E2 M2]|[E2 M2]]; [left|right]; (split; [exact E2|congruence]).
+    + right. split.
+      * intro E2. destruct (fr_prov _ _ _ _ _ G k b 0 Hk E2) as [X|X]; [exact (E1 X)|lia].
+      * rewrite (fr_other _ _ _ _ _ G b); [exact M1|lia|lia|lia|lia|].
+        intros k' o' Hk' X. exact (live_not_freed m1 pb1 lb1 R1 k' b o' H1 Hk' X M1).
+  - intros b Hb N1 N2 N3 Hun. rewrite (fr_other _ _ _ _ _ G b); [apply (fr_other _ _ _ _ _ F b); assumption|lia|exact N1|exact N2|exact N3|].
+    intros k o Hk X. destruct (fr_prov _ _ _ _ _ F k b o Hk X) as [Y|Y]; [exact (Hun k o Hk Y)|lia].
+  - intros b Hb N3. destruct (Nat.lt_ge_cases b (length m1)) as [Lt|Ge].
+    + destruct (fr_new _ _ _ _ _ F b ltac:(lia) N3) as [M1|(k & Hk & E1)].
+      * left. rewrite (fr_other _ _ _ _ _ G b); [exact M1|lia|lia|lia|exact N3|].
+        intros k' o' Hk' X. exact (live_not_freed m1 pb1 lb1 R1 k' b o' H1 Hk' X M1).
+      * destruct (fr_own _ _ _ _ _ G k b 0 Hk E1) as [[E2 M2]|[E2 M2]]; [right; exists k; split; assumption|left; exact M2].
+    + apply (fr_new _ _ _ _ _ G b); [lia|exact N3].
+Qed.
+
+(* one reg_putraw *)
+Lemma fr_putraw k0 m pb lb R lc txt ln : regs_at m pb lb R -> (lc < 256)%nat ->
+  fr k0 m pb (putraw_mem m pb lb lc txt ln) (upd pb lc (VPtr (length m) 0)).
+Proof.
+  intros H Hlc. pose proof (ra_blen _ _ _ _ H) as Hbl.
+  destruct (putraw_mem_blocks m pb lb R lc txt ln H Hlc) as (B1 & B2 & B3 & B4 & B5 & B6).
+  constructor.
+  - rewrite B4. lia.
+  - intros k b o Hk E. rewrite cellp_upd in E by lia. destruct (Nat.eqb_spec k lc); [injection E as <- <-; right; lia|left; exact E].
+  - intros k b o Hk E. destruct (cell_live m pb lb R k b o H Hk E) as (-> & Hh & Hb & _). unfold heap_blk in Hh.
+    destruct globals_small as (G0 & G1 & G2 & _). pose proof (ra_glob _ _ _ _ H) as Hg.
+    rewrite cellp_upd by lia. destruct (Nat.eqb_spec k lc) as [->|Hne].
+    + right. split; [intro X; injection X as X; lia|exact (B5 b 0 E)].
+    + left. split; [exact E|]. apply B6; [exact Hb|lia|lia|].
+      intros o' E'. destruct (cell_live m pb lb R lc b o' H Hlc E') as (-> & _). apply Hne. exact (ra_inj _ _ _ _ H k lc b Hk Hlc E E').
+  - intros b Hb N1 N2 N3 Hun. apply B6; try assumption. intros o. apply Hun. exact Hlc.
+  - intros b Hb N3. rewrite B4 in Hb. assert (b = length m) by lia. subst b. right. exists lc. split; [exact Hlc|].
+    rewrite cellp_upd by lia. rewrite Nat.eqb_refl. reflexivity.
+Qed.
+
+(* a store into the cell of i_ln *)
+Lemma fr_scratch k0 m pb v : (k0 < length m)%nat -> (forall k o, (k < 256)%nat -> cellp pb k <> VPtr k0 o) ->
+  fr k0 m pb (upd m k0 v) pb.
+Proof.
+  intros Hk0 Hun. constructor.
+  - rewrite upd_length by exact Hk0. lia.
+  - intros. left. assumption.
+  - intros k b o Hk E. left. split; [exact E|]. apply mem_upd_other; [exact Hk0|]. intro X. subst b. exact (Hun k o Hk E).
+  - intros b Hb N1 N2 N3 _. apply mem_upd_other; assumption.
+  - intros b Hb. rewrite upd_length in Hb by exact Hk0. lia.
+Qed.
+Lemma regs_at_scratch m pb lb R k0 v : regs_at m pb lb R -> (length cglobals <= k0 < length m)%nat ->
+  (forall k o, (k < 256)%nat -> cellp pb k <> VPtr k0 o) -> regs_at (upd m k0 v) pb lb R.
+Proof.
+  intros H Hk0 Hun. destruct globals_small as (G0 & G1 & G2 & G3 & G4 & G5).
+  assert (O : forall b, b <> k0 -> nth_error (upd m k0 v) b = nth_error m b) by (intros; apply mem_upd_other; [lia|assumption]).
+  constructor.
+  - rewrite O by lia. exact (ra_bufs _ _ _ _ H).
+  - exact (ra_blen _ _ _ _ H).
+  - unfold int_arr_at. rewrite O by lia. exact (ra_ln _ _ _ _ H).
+  - exact (ra_llen _ _ _ _ H).
+  - exact (ra_ints _ _ _ _ H).
+  - unfold str_at. rewrite O by lia. exact (ra_lit _ _ _ _ H).
+  - intros k Hk. pose proof (ra_cell _ _ _ _ H k Hk) as Hr. destruct (R (N.of_nat k)) as [[t l]|]; cbn [reg_cell] in Hr |- *; [|exact Hr].
+    destruct Hr as (b & E & Hh & Hst & Hn & Hf & Hl). exists b. repeat split; try assumption.
+    unfold str_at. rewrite O; [exact Hst|]. intro X. subst b. exact (Hun k 0 Hk E).
+  - exact (ra_inj _ _ _ _ H).
+  - rewrite upd_length by lia. exact (ra_glob _ _ _ _ H).
+Qed.
